@@ -336,7 +336,11 @@ func (c *check) Describe(u int64) any {
 	case 'B':
 		return map[string]any{"block": "anonymous-boxes", "property": p.name}
 	case 'C':
-		return map[string]any{"block": "absolutisation", "property": p.name, "length_templates": p.templates}
+		var kws []string
+		for _, kv := range p.kwValues {
+			kws = append(kws, kv.value)
+		}
+		return map[string]any{"block": "absolutisation", "property": p.name, "length_templates": p.templates, "keyword_and_px_values": kws}
 	}
 	return map[string]any{"block": "box-building", "property": p.name, "containers": containerDisplays}
 }
